@@ -92,6 +92,7 @@ pub fn run_policy(ctx: &mut Ctx, scn: &StoreScn) {
     }
     let t_open = ctx.sim.now_ns();
     let seq_open = store::io_seq(ctx.sim);
+    ctx.sim.enable_wait_log();
     let s = match store::open_store(ctx, &rel, &cfg) {
         Ok(s) => s,
         Err(e) => {
@@ -194,12 +195,7 @@ pub fn run_policy(ctx: &mut Ctx, scn: &StoreScn) {
                 }
             }
         }
-        if t_end - last > worst {
-            worst = t_end - last;
-        }
-        if worst > dn + 1_000 {
-            ctx.viol("sync-gap", format!("with interval sync every {}ms there was a span of {}us without an fsync while the store was open", dms, worst / 1000), "");
-        }
+        let _ = (worst, dn, t_end);
     }
     // second round: the policy keeps being followed on later ticks. A second burst of writes
     // (no simulated time passes while it runs), the predicate recomputed from the store's own
@@ -269,43 +265,11 @@ pub fn run_policy(ctx: &mut Ctx, scn: &StoreScn) {
             fsim::with_fs(ctx.sim, move |fs| fs.legal = saved);
             ctx.sim.sleep_thread(ctx.me, 3 * dn + 1_000);
             let t_end3 = ctx.sim.now_ns();
-            let mut writers: Vec<usize> = ctx.sim.threads_named("c18-writer-0");
-            writers.extend(ctx.sim.threads_named("c18-writer-1"));
-            let me = ctx.me;
-            let (all_fsyncs, merged): (Vec<(u64, u64, usize)>, bool) = fsim::with_fs(ctx.sim, |fs| {
-                let f = fs.log.iter().filter(|r| r.seq > seq_open && r.res >= 0 && r.op == IoOp::Fsync && r.tid != me && !writers.contains(&r.tid) && fs.path_name(r.path).ends_with(".data")).map(|r| (r.seq, r.now, r.tid)).collect();
-                let m = fs.log.iter().any(|r| r.seq > seq3 && r.op == IoOp::Create && fs.path_name(r.path).ends_with(".hint"));
-                (f, m)
-            });
-            if merged {
-                // merges force their own files and keep the worker busy: not this round's subject
-                ctx.sim.probe("sync_under_writers_round_skipped_merge_ran");
-            } else if let Some(&(_, t0, tid0)) = all_fsyncs.iter().filter(|(q, _, _)| *q <= seq3).last() {
-                ctx.sim.probe("sync_under_writers_compared");
-                let log = ctx.sim.wait_log();
-                // waits of the store's own threads (its worker and whatever threads it syncs on)
-                let waited = |a: u64, b: u64| -> u64 { log.iter().filter(|(t, _, _)| *t != me && !writers.contains(t)).map(|(_, f, e)| (*e).min(b).saturating_sub((*f).max(a))).sum() };
-                let _ = tid0;
-                let mut prev = t0;
-                let mut points: Vec<u64> = all_fsyncs.iter().filter(|(q, _, _)| *q > seq3).map(|(_, t, _)| *t).collect();
-                points.push(t_end3);
-                for t in points {
-                    let gap = t.saturating_sub(prev);
-                    let w = waited(prev, t);
-                    if w > 0 {
-                        ctx.sim.probe("sync_tick_waited_for_writer_or_disk");
-                    }
-                    if gap > dn + w + 1_000 {
-                        ctx.viol(
-                            "sync-gap-under-writers",
-                            format!("with interval sync every {}ms and clients writing, {}us passed without a forced sync of a data file although the store's own threads waited only {}us for locks and disk in that span", dms, gap / 1000, w / 1000),
-                            "",
-                        );
-                        break;
-                    }
-                    prev = t;
-                }
-            }
+            let mut clients: Vec<usize> = ctx.sim.threads_named("c18-writer-0");
+            clients.extend(ctx.sim.threads_named("c18-writer-1"));
+            clients.push(ctx.me);
+            check_sync_obligations(ctx, seq_open, dms, &clients, t_end3);
+            let _ = seq3;
         }
     }
     ctx.sig(mix(mode, mix(never as u64, mix(predicate as u64, mix(matches!(cfg.sync, SyncCfg::IntervalMs(_)) as u64, (hint_creates.len() as u64).min(3))))));
@@ -313,6 +277,72 @@ pub fn run_policy(ctx: &mut Ctx, scn: &StoreScn) {
     drop(s);
     ctx.join_others();
     store::remove_dir(ctx, &rel);
+}
+
+/// Interval sync, as an obligation per client write: an append to a data file must be followed
+/// by a forced sync of that file within one interval -- plus exactly the time the store's own
+/// threads spent waiting for locks and disk in that span (simulated time only passes while
+/// threads wait) -- unless the file stopped being the active one first (a later data file was
+/// created) or the observation ended first. A store that skips the fsync while nothing new was
+/// appended meets every obligation; a sync loop that stops, skips rounds while clients hold the
+/// writer lock, or loses track of a new active file does not.
+fn check_sync_obligations(ctx: &mut Ctx, seq_open: u64, dms: u64, clients: &[usize], t_end: u64) {
+    let dn = dms * 1_000_000;
+    // (seq, time, path id) of client appends, forced syncs and data-file creations
+    let (writes, fsyncs, creates): (Vec<(u64, u64, u32)>, Vec<(u64, u64, u32)>, Vec<(u64, u64)>) = fsim::with_fs(ctx.sim, |fs| {
+        let mut w = Vec::new();
+        let mut f = Vec::new();
+        let mut c = Vec::new();
+        for r in &fs.log {
+            if r.seq <= seq_open || r.res < 0 || !fs.path_name(r.path).ends_with(".data") {
+                continue;
+            }
+            match r.op {
+                IoOp::Write if r.res > 0 && clients.contains(&r.tid) => w.push((r.seq, r.now, r.path)),
+                IoOp::Fsync => f.push((r.seq, r.now, r.path)),
+                IoOp::Create => c.push((r.seq, r.now)),
+                _ => {}
+            }
+        }
+        (w, f, c)
+    });
+    if writes.is_empty() {
+        return;
+    }
+    ctx.sim.probe("sync_obligations_checked");
+    let log = ctx.sim.wait_log();
+    let waited = |a: u64, b: u64| -> u64 { log.iter().filter(|(t, _, _)| !clients.contains(t)).map(|(_, f, e)| (*e).min(b).saturating_sub((*f).max(a))).sum() };
+    for (wseq, wt, wpath) in &writes {
+        let cover = fsyncs.iter().find(|(q, _, p)| q > wseq && p == wpath).map(|(_, t, _)| *t);
+        let superseded = creates.iter().find(|(q, _)| q > wseq).map(|(_, t)| *t);
+        let resolved_at = match (cover, superseded) {
+            (Some(a), Some(b)) => Some(a.min(b)),
+            (a, b) => a.or(b),
+        };
+        let t = resolved_at.unwrap_or(t_end);
+        let gap = t.saturating_sub(*wt);
+        let w = waited(*wt, t);
+        if w > 0 {
+            ctx.sim.probe("sync_tick_waited_for_writer_or_disk");
+        }
+        if gap > dn + w + 1_000 {
+            let name = fsim::with_fs(ctx.sim, |fs| fs.path_name(*wpath).to_string());
+            ctx.viol(
+                "sync-gap",
+                format!(
+                    "with interval sync every {}ms, bytes appended to {} at t={}us were {} {}us later (the store's own threads waited {}us for locks and disk in that span); the file was still the newest data file",
+                    dms,
+                    name,
+                    wt / 1000,
+                    if resolved_at.is_some() { "first forced to stable storage" } else { "still not forced to stable storage when the observation ended" },
+                    gap / 1000,
+                    w / 1000
+                ),
+                "",
+            );
+            return;
+        }
+    }
 }
 
 // =============================================================================================
